@@ -185,6 +185,10 @@ func (s *Store) Copy(srcKey, dstKey string) (err error) {
 
 	srcLog, err := os.Open(s.logPath(srcKey))
 	if err != nil {
+		if os.IsNotExist(err) {
+			// a ref written by Set has no log: there is nothing more to copy
+			return nil
+		}
 		return
 	}
 	defer srcLog.Close()
